@@ -157,7 +157,8 @@ theorem stable_moves {j0 : JobObj} {s : Sys} {a : Action} (hb : Base j0 s) (h2 :
         obtain ⟨f, hff, _⟩ := finKey_some hk'
         have := henv.2 ha jo hc (by rw [hff]; rfl)
         intro p hp
-        exact this p (hf.podCache ▸ hp)
+        have h' := this p (hf.podCache ▸ hp)
+        rw [← hf.clock] at h'; exact h'
       exact stable_sync ctx (hf.d ▸ hwf) hjo hg ⟨hv.rs, hv.noKill, hv.noAdm, hf.d ▸ hv.coh⟩ hfin hwf3.tmpl hjd hnu k hk'
     | ctlStatusOn jo sp rv0 rv ha hc hf _ =>
       cases hy
@@ -187,7 +188,8 @@ theorem stable_moves {j0 : JobObj} {s : Sys} {a : Action} (hb : Base j0 s) (h2 :
         obtain ⟨f, hff, _⟩ := finKey_some hk'
         have := henv.2 ha jo hc (by rw [hff]; rfl)
         intro p hp
-        exact this p (hf.podCache ▸ hp)
+        have h' := this p (hf.podCache ▸ hp)
+        rw [← hf.clock] at h'; exact h'
       exact stable_sync ctx (hf.d ▸ hwf) hjo hg ⟨hv.rs, hv.noKill, hv.noAdm, hf.d ▸ hv.coh⟩ hfin hwf3.tmpl hjd hnu k hk'
 
 /-- one step inside the envelope: a non-deleted Job that is `Finished` with result / finish time `k`
@@ -265,7 +267,7 @@ def noUnrecCheck (s : Sys) : Bool :=
     !jo.job.status.condition.finished.isSome ||
       s.podCache.all (fun p =>
         !(decide (p.jobLabel = some jo.uid) && decide (p.ownerUid = some jo.uid) &&
-          !(jo.job.status.tasks.any (·.name = p.pod.name))) || (podTask p).isNone)
+          !(jo.job.status.tasks.any (·.name = p.pod.name))) || (podTask s.clock p).isNone)
 
 theorem noUnrec_of_check {s : Sys} (h : noUnrecCheck s = true) : noUnrecordedWhenFinished s .work := by
   intro _ jo hc hfin p hp hl ho hn
